@@ -297,6 +297,22 @@ class SymHash(int):
 HASH_TAU = Fraction(5, 10 ** 11)     # two hashed reals are "the same rounded value" iff |x-y| < 5e-11
 
 
+def _tau():
+    # with the exact rounding model the leaves are exact decimals: equal means equal
+    return Fraction(1, 10 ** 14) if ROUND_EXACT[0] else HASH_TAU
+
+
+def _round_info(x):
+    """(poly, n) if x is exactly one decimal-rounding atom of the engine, else None"""
+    if not isinstance(x, SymNum) or len(x.p.t) != 1:
+        return None
+    (m, c), = x.p.t.items()
+    if c != 1 or len(m) != 1 or m[0][1] != 1:
+        return None
+    v = core.ENG.vars[m[0][0]]
+    return v['info'] if v['kind'] == 'round' else None
+
+
 def leaf_eq(a, b):
     if isinstance(a, SymHash) or isinstance(b, SymHash):
         if isinstance(a, SymHash) and isinstance(b, SymHash):
@@ -305,12 +321,29 @@ def leaf_eq(a, b):
     if isinstance(a, str) or isinstance(b, str):
         return a == b
     if isinstance(a, SymNum) or isinstance(b, SymNum):
+        for x, c in ((a, b), (b, a)):
+            info = _round_info(x)
+            if info is not None and isinstance(c, (int, _real_float, Fraction)):
+                # exact semantics of  round(p, n) == c  for a concrete decimal c
+                p, n = info
+                c = Fraction(c)
+                step = Fraction(1, 10 ** n)
+                if (c / step).denominator != 1:
+                    core.ENG.assume(core.Or(x - c >= step / 4, c - x >= step / 4))
+                    return False
+                px = SymNum(p)
+                if bool(core.And(px >= c - step / 2, px < c + step / 2)):
+                    core.ENG.assume(x == c)
+                    return True
+                core.ENG.assume(core.Or(x - c >= step, c - x >= step))
+                return False
         d = a - b
+        tau = _tau()
         if not isinstance(d, SymNum):
-            return abs(d) < HASH_TAU
-        return bool(core.And(d < HASH_TAU, d > -HASH_TAU))
+            return abs(d) < tau
+        return bool(core.And(d < tau, d > -tau))
     if isinstance(a, (int, _real_float, Fraction)) and isinstance(b, (int, _real_float, Fraction)):
-        return abs(Fraction(a) - Fraction(b)) < HASH_TAU
+        return abs(Fraction(a) - Fraction(b)) < _tau()
     return a == b
 
 
@@ -346,9 +379,14 @@ def hash_shim(obj):
     return h
 
 
+ROUND_EXACT = [False]      # C19 switches the exact decimal rounding model on
+
+
 def round_shim(x, n=None):
     if core.ENG is None:
         return _real_round(x, n) if n is not None else _real_round(x)
+    if isinstance(x, SymNum) and ROUND_EXACT[0] and n is not None:
+        return SymNum(Poly.var(core.ENG.round_atom(x.p, n)))
     if isinstance(x, (SymNum, SymHash)):
         return x
     if isinstance(x, _real_float) and n is not None:
